@@ -1,203 +1,261 @@
-"""Rules over the Python AST of src/gufo/snmp (rule kind Y).  Each function takes
-(ctx, rep, rule_id) and records instances; rule ids are given by the caller so one
-rule can serve several properties."""
-import ast
+"""Rules over the Python layer of src/gufo/snmp (rule kind Y).
 
-from ..pyast import try_maps
+Second generation: the rules are stated over the *paths* of a method as unfolded by gsa.pysym - local names are
+substituted by what they hold, private helper methods and nested functions are inlined, conditions are atoms with
+polarity - so that renaming a local, extracting a helper, turning if/else into a conditional expression or
+an early return into a nested if leaves every rule's verdict unchanged.  Each function takes (ctx, rep, rule_id)."""
+import ast
+import re
+
+from .. import pysym
 
 BLOCKING = ("get", "get_many", "get_next", "get_bulk", "refresh")
 CLIENTS = ("sync_client", "async_client")
 V1 = "eq(SnmpVersion.v1,version)"
+SUPER = ("OSError", "Exception", "BaseException")
 
 
-def _need(ctx, rep, rule, key):
-    f = ctx.py.func(key)
-    if f is None:
-        rep.missing(rule, "python function " + key)
-    return f
+def model(ctx):
+    m = ctx.cache.get("pym")
+    if m is None:
+        m = pysym.PyModel(ctx.py)
+        ctx.cache["pym"] = m
+    return m
 
 
-# ----------------------------------------------------------------------------- C03.fetch
+def paths(ctx, rep, rule, mod, cls, meth):
+    ps = model(ctx).paths(mod, cls, meth)
+    if ps is None:
+        rep.missing(rule, "python method %s:%s.%s" % (mod, cls, meth))
+        return None
+    rep.note_analysed("functions", ["%s:%s.%s (%d paths)" % (mod, cls, meth, len(ps))])
+    return ps
+
+
+def A(s, pol=True):
+    return pysym.atoms(ast.parse(s, mode="eval").body, pol)
+
+
+def holds(conds, s, pol=True):
+    a = A(s, pol)
+    return bool(a) and all(x in conds for x in a)
+
+
+def calls(p, pred):
+    out = []
+    for i, e in enumerate(p.events):
+        if e.kind == "call" and (pred(e.func) if callable(pred) else e.func == pred):
+            out.append((i, e))
+    return out
+
+
+def stores(p, target):
+    return [(i, e) for i, e in enumerate(p.events) if e.kind == "store" and e.target == target]
+
+
+def loc(ctx, mod, e):
+    n = e.node if isinstance(e, pysym.Event) else e
+    return ctx.py.loc(mod, n)
+
+
+def maps(e, frm, to):
+    """The event sits in a try whose handler for `frm` (or a superclass) raises `to`."""
+    for n, r in e.handlers:
+        if (n == frm or n in SUPER or n.endswith("." + frm)) and r is not None and (r == to or r.endswith("." + to)):
+            return True
+        if n == frm or n in SUPER:
+            return False   # the first matching handler decides
+    return False
+
+
+def strip_old(t):
+    return re.sub(r"old\(([^()]*)\)", r"\1", t)
+
+
+def fn_node(ctx, mod, cls, meth):
+    return model(ctx).classes.get(mod, {}).get(cls, {}).get(meth)
+
+
+# ----------------------------------------------------------------------------- C03.fetch / C05.fetch
 def fetch(ctx, rep, rule):
-    py = ctx.py
     for mod in CLIENTS:
-        init = _need(ctx, rep, rule, "%s:SnmpSession.__init__" % mod)
-        if init:
-            asg = init.assigns_to("self._allow_bulk")
-            if not asg:
+        ps = paths(ctx, rep, rule, mod, "SnmpSession", "__init__")
+        if ps:
+            n_v1 = 0
+            anyst = False
+            for p in ps:
+                if p.done == "raise":
+                    continue
+                st = stores(p, "self._allow_bulk")
+                v1 = bool(calls(p, "SnmpV1ClientSocket"))
+                if not st:
+                    continue
+                anyst = True
+                i, e = st[-1]
+                val = pysym.reduce(e.value, e.conds)
+                if v1:
+                    n_v1 += 1
+                    rep.check(rule, "%s.__init__|v1-disables-bulk" % mod, val == "False", "a v1 session stores False",
+                              "a session built on SnmpV1ClientSocket stores self._allow_bulk = %s: fetch() would send GETBULK over SNMPv1" % val,
+                              loc(ctx, mod, e))
+                else:
+                    rep.check(rule, "%s.__init__|_allow_bulk=%s" % (mod, val), True, "non-v1 session", "", loc(ctx, mod, e))
+            if not anyst:
                 rep.missing(rule, "%s: assignment to self._allow_bulk" % mod)
-            for st, c in asg:
-                v = st.value
-                txt = ast.unparse(v)
-                key = "%s.__init__|_allow_bulk=%s" % (mod, txt)
-                atoms = []
-                if isinstance(v, ast.BoolOp) and isinstance(v.op, ast.And):
-                    from ..pyast import cond_atoms
-                    atoms = cond_atoms(v, True)
-                if txt == "False":
-                    rep.ok(rule, key, "constant False", py.loc(mod, st))
-                elif c.has(V1, False) or (V1, False) in atoms:
-                    rep.ok(rule, key, "reached only when version != v1", py.loc(mod, st))
-                elif isinstance(v, (ast.Name, ast.Constant, ast.Attribute)):
-                    rep.violation(rule, key, "self._allow_bulk can be set to %s on a v1 session (no version != v1 "
-                                  "condition governs this assignment)" % txt, py.loc(mod, st))
-                else:
-                    rep.inconclusive(rule, key, "unrecognised value shape", py.loc(mod, st))
-            # a v1 session must get False on some path
-            if asg and not any(ast.unparse(st.value) == "False" and c.has(V1, True) for st, c in asg) and \
-                    not any(isinstance(st.value, ast.BoolOp) for st, c in asg):
-                rep.violation(rule, "%s.__init__|v1-disables-bulk" % mod,
-                              "no assignment self._allow_bulk = False under version == SnmpVersion.v1")
-        f = _need(ctx, rep, rule, "%s:SnmpSession.fetch" % mod)
-        if f:
-            gb = f.calls_to(lambda t: t == "self.getbulk")
-            gn = f.calls_to(lambda t: t == "self.getnext")
-            if not gb:
+            elif not n_v1:
+                rep.missing(rule, "%s.__init__: a path that builds SnmpV1ClientSocket and reaches self._allow_bulk" % mod)
+        ps = paths(ctx, rep, rule, mod, "SnmpSession", "fetch")
+        if ps:
+            nb = nn = 0
+            for p in ps:
+                gb = calls(p, lambda f: f in ("self.getbulk", "GetBulkIter"))
+                gn = calls(p, lambda f: f in ("self.getnext", "GetNextIter"))
+                for i, e in gb:
+                    nb += 1
+                    rep.check(rule, "%s.fetch|getbulk-under-allow_bulk" % mod, holds(e.conds, "self._allow_bulk", True),
+                              "getbulk only under self._allow_bulk", "fetch() calls getbulk without self._allow_bulk holding", loc(ctx, mod, e))
+                for i, e in gn:
+                    nn += 1
+                    rep.check(rule, "%s.fetch|getnext-otherwise" % mod, holds(e.conds, "self._allow_bulk", False),
+                              "getnext when bulk is not allowed", "fetch() calls getnext although bulk is allowed on this path", loc(ctx, mod, e))
+            if not nb:
                 rep.missing(rule, "%s.fetch: call of self.getbulk" % mod)
-            if not gn:
+            if not nn:
                 rep.missing(rule, "%s.fetch: call of self.getnext" % mod)
-            for c, cx, st in gb:
-                rep.check(rule, "%s.fetch|getbulk-under-allow_bulk" % mod, cx.has("self._allow_bulk", True),
-                          "getbulk only under self._allow_bulk", "fetch() calls getbulk without self._allow_bulk holding",
-                          py.loc(mod, c))
-            for c, cx, st in gn:
-                rep.check(rule, "%s.fetch|getnext-otherwise" % mod, cx.has("self._allow_bulk", False),
-                          "getnext when bulk is not allowed", "fetch() calls getnext although bulk is allowed on this path",
-                          py.loc(mod, c))
-        g = _need(ctx, rep, rule, "%s:SnmpSession.getbulk" % mod)
-        if g:
-            ctor = g.calls_to(lambda t: t == "GetBulkIter")
-            if not ctor:
+        ps = paths(ctx, rep, rule, mod, "SnmpSession", "getbulk")
+        if ps:
+            n = 0
+            for p in ps:
+                for i, e in calls(p, "GetBulkIter"):
+                    n += 1
+                    key = "%s.getbulk|max_repetitions" % mod
+                    cand = [a for a in e.args if "max_repetitions" in a]
+                    cand = [a.split("=", 1)[1] if re.match(r"^\w+=", a) else a for a in cand]
+                    if not cand:
+                        rep.violation(rule, key, "GetBulkIter is built without the requested max_repetitions: %s" % e.args, loc(ctx, mod, e))
+                        continue
+                    a = cand[0]
+                    given = list(e.conds) + [("max_repetitions", True), ("eq(None,max_repetitions)", False)]
+                    absent = list(e.conds) + [("max_repetitions", False), ("eq(None,max_repetitions)", True)]
+                    g = pysym.reduce(a, given) if not pysym._contradiction(given) else None
+                    d = pysym.reduce(a, absent) if not pysym._contradiction(absent) else None
+                    if g not in (None, "max_repetitions"):
+                        if g == "self._max_repetitions":
+                            rep.violation(rule, key, "the caller's max_repetitions is ignored: %s" % e.args, loc(ctx, mod, e))
+                        else:
+                            rep.inconclusive(rule, key, "unrecognised argument shape %s" % a, loc(ctx, mod, e))
+                    elif d not in (None, "self._max_repetitions"):
+                        if d in ("max_repetitions", "None"):
+                            rep.violation(rule, key, "max_repetitions=None is passed through instead of the session default: %s" % e.args, loc(ctx, mod, e))
+                        else:
+                            rep.inconclusive(rule, key, "unrecognised default shape %s" % a, loc(ctx, mod, e))
+                    else:
+                        rep.ok(rule, key, "caller's max_repetitions, session default otherwise", loc(ctx, mod, e))
+            if not n:
                 rep.missing(rule, "%s.getbulk: GetBulkIter(...)" % mod)
-            for c, cx, st in ctor:
-                args = [ast.unparse(a) for a in c.args]
-                good = ("max_repetitions or self._max_repetitions",
-                        "self._max_repetitions if max_repetitions is None else max_repetitions",
-                        "max_repetitions if max_repetitions is not None else self._max_repetitions",
-                        "max_repetitions if max_repetitions else self._max_repetitions")
-                key = "%s.getbulk|max_repetitions" % mod
-                if any(a in good for a in args):
-                    rep.ok(rule, key, "caller's max_repetitions, session default otherwise", py.loc(mod, c))
-                elif not any("max_repetitions" in a for a in args):
-                    rep.violation(rule, key, "GetBulkIter is built without the requested max_repetitions: %s" % args,
-                                  py.loc(mod, c))
-                elif any(a == "self._max_repetitions" for a in args) and not any(
-                        "max_repetitions" in a and a != "self._max_repetitions" for a in args):
-                    rep.violation(rule, key, "the caller's max_repetitions is ignored: %s" % args, py.loc(mod, c))
-                elif any(a == "max_repetitions" for a in args):
-                    rep.violation(rule, key, "max_repetitions=None is passed through instead of the session default: %s"
-                                  % args, py.loc(mod, c))
-                else:
-                    rep.inconclusive(rule, key, "unrecognised argument shape %s" % args, py.loc(mod, c))
     # the iterator hands the value to the Rust GetIter
-    for mod, fn, ctor in (("sync_getbulk", "GetBulkIter.__init__", "_Iter"), ("async_client", "GetBulkIter.__init__", "GetIter")):
-        f = _need(ctx, rep, rule, "%s:%s" % (mod, fn))
-        if f:
-            cs = f.calls_to(lambda t: t == ctor)
-            if not cs:
-                rep.missing(rule, "%s.%s: %s(...)" % (mod, fn, ctor))
-            for c, cx, st in cs:
-                args = [ast.unparse(a) for a in c.args] + [ast.unparse(k.value) for k in c.keywords]
-                rep.check(rule, "%s.%s|iter-args" % (mod, fn), args[:2] == ["oid", "max_repetitions"],
-                          "GetIter(oid, max_repetitions)", "GetIter is built from %s, expected (oid, max_repetitions)" % args,
-                          ctx.py.loc(mod, c))
-    for mod, fn, ctor in (("sync_getnext", "GetNextIter.__init__", "_Iter"), ("async_client", "GetNextIter.__init__", "GetIter")):
-        f = _need(ctx, rep, rule, "%s:%s" % (mod, fn))
-        if f:
-            for c, cx, st in f.calls_to(lambda t: t == ctor):
-                args = [ast.unparse(a) for a in c.args]
-                rep.check(rule, "%s.%s|iter-args" % (mod, fn), args[:1] == ["oid"], "GetIter(oid)",
-                          "GetIter is built from %s, expected (oid)" % args, ctx.py.loc(mod, c))
+    for mod, cls, want in (("sync_getbulk", "GetBulkIter", ["oid", "max_repetitions"]), ("async_client", "GetBulkIter", ["oid", "max_repetitions"]),
+                           ("sync_getnext", "GetNextIter", ["oid"]), ("async_client", "GetNextIter", ["oid"])):
+        ps = paths(ctx, rep, rule, mod, cls, "__init__")
+        if not ps:
+            continue
+        n = 0
+        for p in ps:
+            for i, e in calls(p, lambda f: f in ("_Iter", "GetIter")):
+                n += 1
+                rep.check(rule, "%s.%s.__init__|iter-args" % (mod, cls), e.args == want, "GetIter(%s)" % ", ".join(want),
+                          "GetIter is built from %s, expected %s" % (e.args, want), loc(ctx, mod, e))
+        if not n:
+            rep.missing(rule, "%s.%s.__init__: GetIter(...)" % (mod, cls))
 
 
 # ----------------------------------------------------------------------------- C07.py / C18.map
 def blocking_wrapped(ctx, rep, rule):
     """Every blocking socket call of the sync client maps BlockingIOError to TimeoutError."""
-    py = ctx.py
+    m = model(ctx)
     seen = set()
-    for key, f in sorted(py.funcs.items()):
-        mod = key.split(":")[0]
-        if mod not in ("sync_client", "sync_getnext", "sync_getbulk"):
-            continue
-        for fn in f.all_funcs():
-            for c, cx, st in fn.calls:
-                t = ast.unparse(c.func)
-                if not t.startswith("self._sock."):
-                    continue
-                m = t[len("self._sock."):]
-                if m not in BLOCKING:
-                    continue
-                seen.add(m)
-                ok = any(try_maps(tr, "BlockingIOError", "TimeoutError") for tr in cx.tries)
-                rep.check(rule, "%s|self._sock.%s" % (fn.qualname, m), ok,
-                          "inside try/except BlockingIOError -> TimeoutError",
-                          "blocking call self._sock.%s() is not wrapped: a receive timeout surfaces as BlockingIOError "
-                          "instead of TimeoutError" % m, py.loc(mod, c))
-    for m in BLOCKING:
-        if m not in seen:
-            rep.missing(rule, "sync client call of self._sock.%s" % m)
+    for mod in ("sync_client", "sync_getnext", "sync_getbulk"):
+        for cls, meths in sorted(m.classes.get(mod, {}).items()):
+            for meth in sorted(meths):
+                ps = m.paths(mod, cls, meth)
+                done = set()
+                for p in ps or []:
+                    for i, e in calls(p, lambda f: f.startswith("self._sock.") and f[len("self._sock."):] in BLOCKING):
+                        name = e.func[len("self._sock."):]
+                        pos = (getattr(e.node, "lineno", 0), getattr(e.node, "col_offset", 0), e.handlers)
+                        if pos in done:
+                            continue
+                        done.add(pos)
+                        seen.add(name)
+                        rep.check(rule, "%s.%s|self._sock.%s" % (cls, meth, name), maps(e, "BlockingIOError", "TimeoutError"),
+                                  "inside try/except BlockingIOError -> TimeoutError",
+                                  "blocking call self._sock.%s() is not wrapped: a receive timeout surfaces as BlockingIOError "
+                                  "instead of TimeoutError" % name, loc(ctx, mod, e))
+    for name in BLOCKING:
+        if name not in seen:
+            rep.missing(rule, "sync client call of self._sock.%s" % name)
 
 
 # ----------------------------------------------------------------------------- C05 / C06 python side
-def _bulk_iter(ctx, rep, rule, mod, fname, stop_exc):
-    py = ctx.py
-    f = _need(ctx, rep, rule, "%s:GetBulkIter.%s" % (mod, fname))
-    if not f:
+def _bulk_iter(ctx, rep, rule, mod, meth, stop_exc):
+    ps = paths(ctx, rep, rule, mod, "GetBulkIter", meth)
+    if not ps:
         return
-    q = "%s.GetBulkIter.%s" % (mod, fname)
-    funcs = f.all_funcs()
-    # (a) consumption from the front
-    pops = []
-    for fn in funcs:
-        for c, cx, st in fn.calls:
-            t = ast.unparse(c.func)
-            if t in ("self._buffer.pop", "self._buffer.popleft"):
-                pops.append((fn, c, cx, st))
-    if not pops:
+    q = "%s.GetBulkIter.%s" % (mod, meth)
+    node = fn_node(ctx, mod, "GetBulkIter", meth)
+    is_pop = lambda f: f in ("self._buffer.pop", "self._buffer.popleft")  # noqa: E731
+    is_req = lambda f: f.endswith("._sock.get_bulk") or f.endswith("._sock.send_get_bulk")  # noqa: E731
+    is_rsp = lambda f: f.endswith("._sock.get_bulk") or f.endswith("._sock.recv_get_bulk")  # noqa: E731
+    npop = nsent = nstore = nempty = ndeliver = nearly = 0
+    for p in ps:
+        pops = calls(p, is_pop)
+        for i, e in pops:
+            npop += 1
+            front = (e.func.endswith("popleft") and not e.args) or (e.func.endswith(".pop") and e.args == ["0"])
+            rep.check(rule, q + "|pop-front", front, "buffer consumed from the front",
+                      "buffered results are consumed with %s(%s): not in reply order" % (e.func, ",".join(e.args)), loc(ctx, mod, e))
+            ptxt = "%s(%s)" % (e.func, ", ".join(e.args))
+            if ("eq(None,%s)" % ptxt, True) in p.conds:
+                nsent += 1
+                rep.check(rule, q + "|none-sentinel", p.done == "raise" and p.raised == stop_exc, "None marker raises %s" % stop_exc,
+                          "the None end marker popped from the buffer does not raise %s" % stop_exc, loc(ctx, mod, e))
+        st = stores(p, "self._buffer")
+        for i, e in st:
+            nstore += 1
+            rep.check(rule, q + "|refill-when-empty", holds(e.conds, "self._buffer", False), "refill reached only with an empty buffer",
+                      "self._buffer is replaced while it may still hold undelivered results", loc(ctx, mod, e))
+            src = [j for j, x in calls(p, is_rsp) if j < i]
+            if src:
+                rep.ok(rule, q + "|refill-source", "reply of the bulk request", loc(ctx, mod, e))
+            else:
+                rep.inconclusive(rule, q + "|refill-source", "refill value is %s" % e.value, loc(ctx, mod, e))
+        if st:
+            i, e = st[-1]
+            after = list(p.conds[len(e.conds):])
+            if ("self._buffer", False) in after:
+                nempty += 1
+                rep.check(rule, q + "|empty-reply-stops", p.done == "raise" and p.raised == stop_exc, "empty reply raises %s" % stop_exc,
+                          "an empty reply list does not end the iteration", loc(ctx, mod, e))
+            elif p.done == "return":
+                ndeliver += 1
+                rep.check(rule, q + "|deliver-after-refill", any(j > i for j, x in pops) and p.ret is not None and "pop" in pysym.text(p.ret),
+                          "first element delivered right after the refill", "nothing is delivered after a refill", loc(ctx, mod, e))
+        for i, e in calls(p, is_req):
+            rep.check(rule, q + "|serve-buffer-first", holds(e.conds, "self._buffer", False), "a new request only with an empty buffer",
+                      "a request is sent although buffered elements are left", loc(ctx, mod, e))
+        if not st and p.done == "return" and pops and holds(p.conds, "self._buffer", True):
+            nearly += 1
+    if not npop:
         rep.missing(rule, q + ": self._buffer.pop")
-    for fn, c, cx, st in pops:
-        t = ast.unparse(c.func)
-        args = [ast.unparse(a) for a in c.args]
-        front = (t.endswith("popleft") and not args) or (t.endswith(".pop") and args == ["0"])
-        rep.check(rule, q + "|pop-front", front, "buffer consumed from the front",
-                  "buffered results are consumed with %s(%s): not in reply order" % (t, ",".join(args)), py.loc(mod, c))
-        # (b) None sentinel ends the iteration
-        tgt = None
-        if isinstance(st, ast.Assign) and len(st.targets) == 1:
-            tgt = ast.unparse(st.targets[0])
-        sent = False
-        for r, rcx in fn.raises():
-            if r.exc is not None and ast.unparse(r.exc).split("(")[0] == stop_exc and tgt and rcx.has("eq(%s,%s)" % tuple(sorted(("None", tgt))), True):
-                sent = True
-        rep.check(rule, q + "|none-sentinel", sent, "None marker raises %s" % stop_exc,
-                  "the None end marker popped from the buffer does not raise %s" % stop_exc, py.loc(mod, c))
-    # (c) refill only when the buffer is empty, from the bulk request
-    asg = f.assigns_to("self._buffer")
-    if not asg:
+    if not nstore:
         rep.missing(rule, q + ": refill assignment self._buffer = ...")
-    for st, cx in asg:
-        rep.check(rule, q + "|refill-when-empty", cx.has("self._buffer", False),
-                  "refill reached only with an empty buffer",
-                  "self._buffer is replaced while it may still hold undelivered results", py.loc(mod, st))
-        v = ast.unparse(st.value)
-        want = "self._sock.get_bulk(self._ctx)" if mod == "sync_getbulk" else "await self._session._recv(receiver)"
-        if v == want:
-            rep.ok(rule, q + "|refill-source", v, py.loc(mod, st))
-        else:
-            rep.inconclusive(rule, q + "|refill-source", "refill value is %s" % v, py.loc(mod, st))
-        # (d) an empty list ends the iteration
-        later = [r for r, rcx in f.raises() if rcx.order > cx.order and rcx.has("self._buffer", False)
-                 and r.exc is not None and ast.unparse(r.exc).split("(")[0] == stop_exc]
-        rep.check(rule, q + "|empty-reply-stops", bool(later), "empty reply raises %s" % stop_exc,
-                  "an empty reply list does not end the iteration", py.loc(mod, st))
-        # (e) results are delivered through the same front pop after a refill
-        rets = [r for r, rcx in f.returns() if rcx.order > cx.order]
-        rep.check(rule, q + "|deliver-after-refill", any(r.value is not None and "pop" in ast.unparse(r.value) for r in rets),
-                  "first element delivered right after the refill", "nothing is delivered after a refill", py.loc(mod, st))
-    # (f) buffered elements are served before a new request
-    early = [r for r, rcx in f.returns() if rcx.has("self._buffer", True) and r.value is not None and "pop" in ast.unparse(r.value)]
-    rep.check(rule, q + "|serve-buffer-first", bool(early), "buffered elements are returned before a new request is sent",
-              "no early return of buffered elements: each call sends a new request", py.loc(mod, f.node))
+    rep.check(rule, q + "|none-sentinel-tested", nsent > 0, "the popped element is tested for the None marker",
+              "the None end marker popped from the buffer does not raise %s" % stop_exc, ctx.py.loc(mod, node))
+    rep.check(rule, q + "|empty-reply-tested", nempty > 0, "empty reply ends the iteration", "an empty reply list does not end the iteration",
+              ctx.py.loc(mod, node))
+    rep.check(rule, q + "|delivers", ndeliver > 0, "an element is delivered after a refill", "nothing is delivered after a refill", ctx.py.loc(mod, node))
+    rep.check(rule, q + "|serve-buffer-first:early", nearly > 0, "buffered elements are returned before a new request is sent",
+              "no early return of buffered elements: each call sends a new request", ctx.py.loc(mod, node))
 
 
 def bulk_buffer(ctx, rep, rule):
@@ -207,151 +265,176 @@ def bulk_buffer(ctx, rep, rule):
 
 def stop_mapping(ctx, rep, rule):
     """Sync iterators turn the Rust layer's StopAsyncIteration into StopIteration."""
-    py = ctx.py
     for mod, cls, meth in (("sync_getnext", "GetNextIter", "get_next"), ("sync_getbulk", "GetBulkIter", "get_bulk")):
-        f = _need(ctx, rep, rule, "%s:%s.__next__" % (mod, cls))
-        if not f:
+        ps = paths(ctx, rep, rule, mod, cls, "__next__")
+        if not ps:
             continue
-        cs = [x for fn in f.all_funcs() for x in fn.calls_to(lambda t: t == "self._sock." + meth)]
-        if not cs:
+        n = 0
+        done = set()
+        for p in ps:
+            for i, e in calls(p, "self._sock." + meth):
+                n += 1
+                k = (getattr(e.node, "lineno", 0), e.handlers, tuple(e.args))
+                if k in done:
+                    continue
+                done.add(k)
+                rep.check(rule, "%s.%s.__next__|StopAsyncIteration->StopIteration" % (mod, cls), maps(e, "StopAsyncIteration", "StopIteration"),
+                          "mapped", "StopAsyncIteration from the socket is not turned into StopIteration: the sync walk never "
+                          "ends cleanly", loc(ctx, mod, e))
+                rep.check(rule, "%s.%s.__next__|ctx" % (mod, cls), e.args == ["self._ctx"], "request built from the iterator state",
+                          "socket called with %s instead of self._ctx" % e.args, loc(ctx, mod, e))
+        if not n:
             rep.missing(rule, "%s.%s.__next__: self._sock.%s" % (mod, cls, meth))
-        for c, cx, st in cs:
-            ok = any(try_maps(tr, "StopAsyncIteration", "StopIteration") for tr in cx.tries)
-            rep.check(rule, "%s.%s.__next__|StopAsyncIteration->StopIteration" % (mod, cls), ok,
-                      "mapped", "StopAsyncIteration from the socket is not turned into StopIteration: the sync walk never "
-                      "ends cleanly", py.loc(mod, c))
-            args = [ast.unparse(a) for a in c.args]
-            rep.check(rule, "%s.%s.__next__|ctx" % (mod, cls), args == ["self._ctx"], "request built from the iterator state",
-                      "socket called with %s instead of self._ctx" % args, py.loc(mod, c))
 
 
 def async_pairs(ctx, rep, rule):
     """Async operations send X and receive X (same operation, same iterator context), send before receive."""
-    py = ctx.py
     table = (
-        ("SnmpSession.get", "send_get", "recv_get"),
-        ("SnmpSession.get_many", "send_get_many", "recv_get_many"),
-        ("GetNextIter.__anext__", "send_get_next", "recv_get_next"),
-        ("GetBulkIter.__anext__", "send_get_bulk", "recv_get_bulk"),
+        ("SnmpSession", "get", "send_get", "recv_get", None),
+        ("SnmpSession", "get_many", "send_get_many", "recv_get_many", None),
+        ("GetNextIter", "__anext__", "send_get_next", "recv_get_next", ["self._ctx"]),
+        ("GetBulkIter", "__anext__", "send_get_bulk", "recv_get_bulk", ["self._ctx"]),
     )
-    for fn, snd, rcv in table:
-        f = _need(ctx, rep, rule, "async_client:" + fn)
-        if not f:
+    for cls, meth, snd, rcv, args in table:
+        ps = paths(ctx, rep, rule, "async_client", cls, meth)
+        if not ps:
             continue
-        q = "async_client." + fn
-        names_s, names_r = set(), set()
-        for g in f.all_funcs():
-            for c, cx, st in g.calls:
-                t = ast.unparse(c.func)
-                if t.startswith("self._sock.send_"):
-                    names_s.add(t.split(".")[-1])
-                    if "Iter" in fn:
-                        rep.check(rule, q + "|send-ctx", [ast.unparse(a) for a in c.args] == ["self._ctx"], "self._ctx",
-                                  "send uses %s" % [ast.unparse(a) for a in c.args], py.loc("async_client", c))
-                if t.startswith("self._sock.recv_"):
-                    names_r.add(t.split(".")[-1])
-            # attribute references handed to _recv (self._sock.recv_get)
-            for n in ast.walk(g.node):
-                if isinstance(n, ast.Attribute) and ast.unparse(n).startswith("self._sock.recv_"):
-                    names_r.add(n.attr)
-                if isinstance(n, ast.Attribute) and ast.unparse(n).startswith("self._sock.send_"):
-                    names_s.add(n.attr)
-        rep.check(rule, q + "|pair", names_s == {snd} and names_r == {rcv}, "%s / %s" % (snd, rcv),
-                  "expected %s/%s, found send=%s recv=%s" % (snd, rcv, sorted(names_s), sorted(names_r)),
-                  py.loc("async_client", f.node))
-        sends = f.calls_to(lambda t: t.endswith("._send"))
-        recvs = f.calls_to(lambda t: t.endswith("._recv"))
-        if sends and recvs:
-            rep.check(rule, q + "|send-before-recv", min(cx.order for _, cx, _ in sends) <= min(cx.order for _, cx, _ in recvs),
-                      "request sent before waiting for the reply", "reply awaited before the request is sent",
-                      py.loc("async_client", f.node))
-        else:
-            rep.missing(rule, q + ": _send/_recv calls")
+        q = "async_client.%s.%s" % (cls, meth)
+        node = fn_node(ctx, "async_client", cls, meth)
+        n = 0
+        bad = None
+        for p in ps:
+            s = calls(p, lambda f: re.search(r"\._sock\.send_\w+$", f) is not None)
+            r = calls(p, lambda f: re.search(r"\._sock\.recv_\w+$", f) is not None)
+            if not s and not r:
+                continue
+            n += 1
+            ns = {e.func.split(".")[-1] for i, e in s}
+            nr = {e.func.split(".")[-1] for i, e in r}
+            if ns != {snd} or nr != {rcv}:
+                bad = bad or ("expected %s/%s, found send=%s recv=%s" % (snd, rcv, sorted(ns), sorted(nr)), s[0][1] if s else r[0][1])
+            elif min(i for i, e in s) > min(i for i, e in r):
+                bad = bad or ("reply awaited before the request is sent", s[0][1])
+            elif args is not None and any(e.args != args for i, e in s + r):
+                bad = bad or ("send/receive use %s instead of %s" % ([e.args for i, e in s + r], args), s[0][1])
+        if not n:
+            rep.missing(rule, q + ": send_*/recv_* calls")
+            continue
+        rep.check(rule, q + "|pair", bad is None, "%s then %s%s" % (snd, rcv, " on self._ctx" if args else ""), bad[0] if bad else "",
+                  loc(ctx, "async_client", bad[1]) if bad else ctx.py.loc("async_client", node))
 
 
 # ----------------------------------------------------------------------------- C13.py
 SET_KEYS_ARGS = ["self._deferred_user.name", "self._deferred_user.get_auth_alg()", "self._deferred_user.get_auth_key()",
                  "self._deferred_user.get_priv_alg()", "self._deferred_user.get_priv_key()"]
-
-
-def _is_refresh_call(t, mod):
-    if mod == "sync_client":
-        return t in ("self._sock.refresh", "self._refresh_sock")
-    return False
+USER_FIELDS = ["%s.name", "%s.get_auth_alg()", "%s.get_auth_key()", "%s.get_priv_alg()", "%s.get_priv_key()"]
 
 
 def refresh_flow(ctx, rep, rule):
-    py = ctx.py
     for mod in CLIENTS:
         q = mod + ".SnmpSession"
-        init = _need(ctx, rep, rule, "%s:SnmpSession.__init__" % mod)
-        if init:
-            d = [(st, cx) for st, cx in init.assigns_to("self._deferred_user") if ast.unparse(st.value) != "None"]
-            if not d:
-                rep.missing(rule, q + ".__init__: self._deferred_user = user")
-            for st, cx in d:
-                rep.check(rule, q + ".__init__|defer-iff-no-engine-id",
-                          ast.unparse(st.value) == "user" and cx.has("engine_id", False) and cx.has("eq(SnmpVersion.v3,version)", True),
-                          "user deferred only when no engine id is given",
-                          "deferred user set to %s under %s" % (ast.unparse(st.value), cx.conds), py.loc(mod, st))
-            ctor = init.calls_to(lambda t: t == "SnmpV3ClientSocket")
-            if not ctor:
+        ps = paths(ctx, rep, rule, mod, "SnmpSession", "__init__")
+        if ps:
+            nctor = ndef = 0
+            seen = set()
+            for p in ps:
+                ct = calls(p, "SnmpV3ClientSocket")
+                if not ct:
+                    for i, e in stores(p, "self._deferred_user"):
+                        if e.value != "None":
+                            rep.violation(rule, q + ".__init__|defer-iff-no-engine-id", "a user is deferred on a path that builds no SNMPv3 socket", loc(ctx, mod, e))
+                    continue
+                i, c = ct[0]
+                nctor += 1
+                noeng = holds(c.conds, "engine_id", False) or holds(c.conds, "engine_id is None", True)
+                haseng = holds(c.conds, "engine_id", True)
+                d = [(j, e) for j, e in stores(p, "self._deferred_user") if e.value != "None"]
+                k = (noeng, haseng, tuple(e.value for j, e in d), tuple(c.args[1:7]))
+                if k in seen:
+                    continue
+                seen.add(k)
+                if noeng:
+                    ndef += 1
+                    rep.check(rule, q + ".__init__|defer-iff-no-engine-id", len(d) == 1 and d[0][1].value == "user",
+                              "without an engine id the user is deferred", "no engine id is given but the deferred user is %s: the user's keys are never installed"
+                              % [e.value for j, e in d], loc(ctx, mod, c))
+                elif haseng:
+                    rep.check(rule, q + ".__init__|no-defer-with-engine-id", not d, "user installed at once when the engine id is known",
+                              "the user is deferred although an engine id is given", loc(ctx, mod, c))
+                a = c.args
+                eng = pysym.reduce(a[1], c.conds) if len(a) > 1 else None
+                rep.check(rule, q + ".__init__|engine-id-arg", (noeng and eng == "b''") or (haseng and eng == "engine_id") or
+                          (not noeng and not haseng and a[1:2] in (["engine_id or b''"], ["engine_id if engine_id else b''"])),
+                          "engine id handed to the socket", "engine id argument is %s" % (a[1] if len(a) > 1 else None), loc(ctx, mod, c))
+                ok = any(a[2:7] == [f % pre for f in USER_FIELDS] for pre in (("user", "User.default()") if noeng else ("user",)))
+                rep.check(rule, q + ".__init__|user-args", ok, "user name, auth alg/key, priv alg/key in order", "socket built from %s" % a[2:7], loc(ctx, mod, c))
+                tr = [e for j, e in stores(p, "self._to_refresh") if j > i]
+                if p.done != "raise":
+                    if not tr:
+                        rep.violation(rule, q + ".__init__|to-refresh", "self._to_refresh is not set after the SNMPv3 socket is built", loc(ctx, mod, c))
+                    else:
+                        v = pysym.reduce(tr[-1].value, tr[-1].conds)
+                        want = "True" if noeng else ("user.require_auth()" if haseng else "not engine_id or user.require_auth()")
+                        rep.check(rule, q + ".__init__|to-refresh", v == want or (noeng and v in ("True",)),
+                                  "refresh needed when engine id unknown or auth in use", "self._to_refresh = %s (expected %s)" % (v, want), loc(ctx, mod, tr[-1]))
+            if not nctor:
                 rep.missing(rule, q + ".__init__: SnmpV3ClientSocket(...)")
-            for c, cx, st in ctor:
-                a = [ast.unparse(x) for x in c.args]
-                rep.check(rule, q + ".__init__|engine-id-arg", len(a) > 1 and a[1] in ("engine_id if engine_id else b''", "engine_id or b''"),
-                          "engine id handed to the socket", "engine id argument is %s" % (a[1] if len(a) > 1 else None), py.loc(mod, c))
-                want = ["user.name", "user.get_auth_alg()", "user.get_auth_key()", "user.get_priv_alg()", "user.get_priv_key()"]
-                rep.check(rule, q + ".__init__|user-args", a[2:7] == want, "user name, auth alg/key, priv alg/key in order",
-                          "socket built from %s" % a[2:7], py.loc(mod, c))
-            tr = init.assigns_to("self._to_refresh")
-            vals = [ast.unparse(st.value) for st, cx in tr]
-            rep.check(rule, q + ".__init__|to-refresh", "not engine_id or user.require_auth()" in vals,
-                      "refresh needed when engine id unknown or auth in use", "self._to_refresh assigned %s" % vals,
-                      py.loc(mod, init.node))
-        f = _need(ctx, rep, rule, "%s:SnmpSession.refresh" % mod)
-        if f:
+            elif not ndef:
+                rep.missing(rule, q + ".__init__: a path without engine id")
+        ps = paths(ctx, rep, rule, mod, "SnmpSession", "refresh")
+        if ps:
             if mod == "sync_client":
-                def is_ref(t):
-                    return t in ("self._sock.refresh", "self._refresh_sock")
-                refs = [(c, cx) for c, cx, st in f.calls if is_ref(ast.unparse(c.func))]
+                is_probe = lambda e: e.func == "self._sock.refresh"  # noqa: E731
             else:
-                refs = [(c, cx) for c, cx, st in f.calls
-                        if ast.unparse(c.func) == "self._recv" and [ast.unparse(a) for a in c.args] == ["self._sock.recv_refresh"]]
-                sends = [(c, cx) for c, cx, st in f.calls
-                         if ast.unparse(c.func) == "self._send" and [ast.unparse(a) for a in c.args] == ["self._sock.send_refresh"]]
-                rep.check(rule, q + ".refresh|send-recv-paired", len(sends) == len(refs) and all(
-                    s[1].order < r[1].order for s, r in zip(sends, refs)), "each probe is sent then awaited",
-                    "send_refresh/recv_refresh are not paired in order", py.loc(mod, f.node))
-            sk = f.calls_to(lambda t: t == "self._sock.set_keys")
-            if not sk:
+                is_probe = lambda e: e.func == "self._sock.recv_refresh"  # noqa: E731
+            node = fn_node(ctx, mod, "SnmpSession", "refresh")
+            nk = nprobe = 0
+            seen = set()
+            for p in ps:
+                probes = [(i, e) for i, e in enumerate(p.events) if e.kind == "call" and is_probe(e)]
+                sk = calls(p, "self._sock.set_keys")
+                sig = (tuple(i for i, e in probes), tuple(i for i, e in sk), tuple(sorted(set(p.conds))))
+                if sig in seen:
+                    continue
+                seen.add(sig)
+                if mod == "async_client":
+                    seq = [e.func.split(".")[-1] for e in p.events if e.kind == "call" and e.func in ("self._sock.send_refresh", "self._sock.recv_refresh")]
+                    good = len(seq) % 2 == 0 and all(x == ("send_refresh" if k % 2 == 0 else "recv_refresh") for k, x in enumerate(seq))
+                    rep.check(rule, q + ".refresh|send-recv-paired", good, "each probe is sent then awaited", "send_refresh/recv_refresh are not paired in order: %s" % seq,
+                              ctx.py.loc(mod, node))
+                for i, e in probes:
+                    nprobe += 1
+                    gate = holds(e.conds, "isinstance(self._sock, SnmpV3ClientSocket)", True) and \
+                        (holds(e.conds, "self._to_refresh", True) or ("old(self._to_refresh)", True) in e.conds)
+                    rep.check(rule, q + ".refresh|v3-only", gate, "probes only for an SNMPv3 socket that needs a refresh",
+                              "refresh probes run without the v3 / _to_refresh gate", loc(ctx, mod, e))
+                for i, e in sk:
+                    nk += 1
+                    rep.check(rule, q + ".refresh|set_keys-args", e.args == SET_KEYS_ARGS, "deferred user's name and keys, in order", "set_keys called with %s" % e.args,
+                              loc(ctx, mod, e))
+                    rep.check(rule, q + ".refresh|set_keys-under-deferred", holds(e.conds, "self._deferred_user", True), "", "set_keys is not conditional on a deferred user",
+                              loc(ctx, mod, e))
+                    rep.check(rule, q + ".refresh|discover-before-set_keys", any(j < i for j, x in probes), "engine id discovery precedes key localisation",
+                              "set_keys runs before any refresh: keys are localised with an empty engine id", loc(ctx, mod, e))
+                    clr = [j for j, x in stores(p, "self._deferred_user") if x.value == "None" and j > i]
+                    rep.check(rule, q + ".refresh|clear-deferred", bool(clr), "deferred user cleared after installation", "deferred user is not cleared after set_keys",
+                              loc(ctx, mod, e))
+                    rep.check(rule, q + ".refresh|final-refresh", any(j > i for j, x in probes) or p.done == "raise", "time/boots refresh with the real keys follows",
+                              "no refresh after the keys are installed", loc(ctx, mod, e))
+                if not sk and p.done is None and probes and ("self._deferred_user", True) in p.conds:
+                    rep.violation(rule, q + ".refresh|install-deferred", "a deferred user is pending but set_keys is not called on this path", ctx.py.loc(mod, node))
+            if not nk:
                 rep.missing(rule, q + ".refresh: self._sock.set_keys")
-            for c, cx, st in sk:
-                a = [ast.unparse(x) for x in c.args]
-                rep.check(rule, q + ".refresh|set_keys-args", a == SET_KEYS_ARGS, "deferred user's name and keys, in order",
-                          "set_keys called with %s" % a, py.loc(mod, c))
-                rep.check(rule, q + ".refresh|set_keys-under-deferred", cx.has("self._deferred_user", True), "",
-                          "set_keys is not conditional on a deferred user", py.loc(mod, c))
-                before = [r for r in refs if r[1].order < cx.order and r[1].has("self._deferred_user", True)]
-                rep.check(rule, q + ".refresh|discover-before-set_keys", bool(before),
-                          "engine id discovery precedes key localisation",
-                          "set_keys runs before any refresh: keys are localised with an empty engine id", py.loc(mod, c))
-                clr = [(st2, cx2) for st2, cx2 in f.assigns_to("self._deferred_user") if ast.unparse(st2.value) == "None"]
-                rep.check(rule, q + ".refresh|clear-deferred", any(cx2.order > cx.order and cx2.has("self._deferred_user", True) for st2, cx2 in clr),
-                          "deferred user cleared after installation", "deferred user is not cleared after set_keys",
-                          py.loc(mod, c))
-                after = [r for r in refs if r[1].order > cx.order and not r[1].has("self._deferred_user", True)]
-                rep.check(rule, q + ".refresh|final-refresh", bool(after), "time/boots refresh with the real keys follows",
-                          "no unconditional refresh after the keys are installed", py.loc(mod, c))
-            first_ref = min([r[1].order for r in refs], default=10 ** 6)
-            guard = [r for r, rcx in f.returns() if rcx.order < first_ref and any("_to_refresh" in c[0] for c in rcx.conds)]
-            rep.check(rule, q + ".refresh|v3-only", bool(guard), "returns early for non-v3 / nothing to refresh",
-                      "no early return", py.loc(mod, f.node))
+            if not nprobe:
+                rep.missing(rule, q + ".refresh: refresh probe")
         ent = "__enter__" if mod == "sync_client" else "__aenter__"
-        e = _need(ctx, rep, rule, "%s:SnmpSession.%s" % (mod, ent))
-        if e:
-            rep.check(rule, q + "." + ent + "|refresh", bool(e.calls_to(lambda t: t == "self.refresh")),
-                      "context entry runs discovery", "context entry does not call refresh()", py.loc(mod, e.node))
+        ps = paths(ctx, rep, rule, mod, "SnmpSession", ent)
+        if ps:
+            ok = all(calls(p, "self.refresh") or any(e.origin and "refresh" in e.origin for e in p.events) for p in ps if p.done != "raise")
+            if mod == "async_client":
+                ok = ok and all(e.awaited for p in ps for i, e in calls(p, "self.refresh"))
+            rep.check(rule, q + "." + ent + "|refresh", ok, "context entry runs discovery", "context entry does not call refresh()",
+                      ctx.py.loc(mod, fn_node(ctx, mod, "SnmpSession", ent)))
 
 
 # ----------------------------------------------------------------------------- C18
@@ -361,225 +444,327 @@ def timeouts(ctx, rep, rule):
     for m, v in ns.items():
         rep.check(rule, m + "|NS", v == 1_000_000_000.0, "NS = 1e9", "NS is %r" % (v,), py.sources.get(m, m))
     for mod in CLIENTS:
-        init = _need(ctx, rep, rule, "%s:SnmpSession.__init__" % mod)
-        if not init:
+        ps = paths(ctx, rep, rule, mod, "SnmpSession", "__init__")
+        if not ps:
             continue
-        n = 0
-        for name, idx in (("SnmpV1ClientSocket", 5), ("SnmpV2cClientSocket", 5), ("SnmpV3ClientSocket", 10)):
-            for c, cx, st in init.calls_to(lambda t: t == name):
-                n += 1
-                a = [ast.unparse(x) for x in c.args]
-                last = a[idx] if len(a) > idx else None
-                if mod == "sync_client":
-                    rep.check(rule, "%s.__init__|%s timeout arg" % (mod, name), last == "timeout_ns",
-                              "timeout_ns", "socket timeout argument is %s" % last, py.loc(mod, c))
-                else:
-                    rep.check(rule, "%s.__init__|%s timeout arg" % (mod, name), last == "0",
-                              "0 (non-blocking)", "async socket timeout argument is %s (must be non-blocking)" % last, py.loc(mod, c))
-        if n < 3:
+        found = set()
+        seen = set()
+        for p in ps:
+            for name, idx in (("SnmpV1ClientSocket", 5), ("SnmpV2cClientSocket", 5), ("SnmpV3ClientSocket", 10)):
+                for i, e in calls(p, name):
+                    found.add(name)
+                    last = e.args[idx] if len(e.args) > idx else None
+                    if (name, last) in seen:
+                        continue
+                    seen.add((name, last))
+                    if mod == "sync_client":
+                        rep.check(rule, "%s.__init__|%s timeout arg" % (mod, name), last in ("int(timeout * NS)", "int(NS * timeout)", "timeout_ns=int(timeout * NS)"),
+                                  "int(timeout * NS)", "socket timeout argument is %s" % last, loc(ctx, mod, e))
+                    else:
+                        rep.check(rule, "%s.__init__|%s timeout arg" % (mod, name), last in ("0", "timeout_ns=0"),
+                                  "0 (non-blocking)", "async socket timeout argument is %s (must be non-blocking)" % last, loc(ctx, mod, e))
+            if p.done != "raise":
+                t = [e.value for i, e in stores(p, "self._timeout")]
+                if ("T", tuple(t)) not in seen:
+                    seen.add(("T", tuple(t)))
+                    rep.check(rule, "%s.__init__|self._timeout" % mod, t == ["timeout"], "timeout", "self._timeout = %s" % t,
+                              py.loc(mod, fn_node(ctx, mod, "SnmpSession", "__init__")))
+        if len(found) < 3:
             rep.missing(rule, "%s.__init__: three socket constructors" % mod)
-        if mod == "sync_client":
-            t = [ast.unparse(st.value) for st, cx in init.assigns_to("timeout_ns")]
-            rep.check(rule, "sync_client.__init__|timeout_ns", t in (["int(timeout * NS)"], ["int(NS * timeout)"]),
-                      "int(timeout * NS)", "timeout_ns computed as %s" % t, py.loc(mod, init.node))
-        t = [ast.unparse(st.value) for st, cx in init.assigns_to("self._timeout")]
-        rep.check(rule, "%s.__init__|self._timeout" % mod, t == ["timeout"], "timeout", "self._timeout = %s" % t,
-                  py.loc(mod, init.node))
-    r = _need(ctx, rep, rule, "async_client:SnmpSession._recv")
-    if r:
-        wf = r.calls_to(lambda t: t in ("wait_for", "asyncio.wait_for"))
-        if not wf:
+    ps = paths(ctx, rep, rule, "async_client", "SnmpSession", "_recv")
+    if ps:
+        nwf = 0
+        seen = set()
+        for p in ps:
+            for i, e in calls(p, lambda f: f in ("wait_for", "asyncio.wait_for")):
+                nwf += 1
+                k = (tuple(e.args), e.handlers)
+                if k in seen:
+                    continue
+                seen.add(k)
+                a = e.args
+                m = re.match(r"^coro\((\w+)\)$", a[0]) if a else None
+                rep.check(rule, "async_client._recv|deadline", bool(m) and len(a) >= 2 and a[1] in ("self._timeout", "timeout=self._timeout"),
+                          "whole retry loop under wait_for(self._timeout)", "wait_for called with %s" % a, loc(ctx, "async_client", e))
+                rep.check(rule, "async_client._recv|timeout-mapped", maps(e, "AIOTimeoutError", "TimeoutError") or maps(e, "asyncio.TimeoutError", "TimeoutError") or
+                          maps(e, "TimeoutError", "TimeoutError"), "asyncio timeout -> TimeoutError", "asyncio timeout is not mapped to TimeoutError",
+                          loc(ctx, "async_client", e))
+                rc = [x for j, x in calls(p, "receiver") if j < i]
+                inside = [x for x in rc if m and x.origin and m.group(1) in x.origin]
+                rep.check(rule, "async_client._recv|retry-inside", bool(inside) and all(x.loops for x in inside) and len(inside) == len(rc),
+                          "receiver retried inside the awaited coroutine", "receiver is not retried in a loop inside the coroutine handed to wait_for",
+                          loc(ctx, "async_client", e))
+        if not nwf:
             rep.missing(rule, "async_client._recv: wait_for")
-        for c, cx, st in wf:
-            a = [ast.unparse(x) for x in c.args] + ["%s=%s" % (k.arg, ast.unparse(k.value)) for k in c.keywords]
-            rep.check(rule, "async_client._recv|deadline", len(a) >= 2 and a[0] == "get_response()" and a[1] in ("self._timeout", "timeout=self._timeout"),
-                      "whole retry loop under wait_for(self._timeout)", "wait_for called with %s" % a, py.loc("async_client", c))
-            rep.check(rule, "async_client._recv|timeout-mapped",
-                      any(try_maps(tr, "AIOTimeoutError", "TimeoutError") or try_maps(tr, "asyncio.TimeoutError", "TimeoutError") for tr in cx.tries),
-                      "asyncio timeout -> TimeoutError", "asyncio timeout is not mapped to TimeoutError", py.loc("async_client", c))
-        gr = r.nested.get("get_response")
-        if gr:
-            rc = gr.calls_to(lambda t: t == "receiver")
-            rep.check(rule, "async_client._recv|retry-inside", bool(rc) and all(cx.loops for c, cx, st in rc),
-                      "receiver retried inside the awaited coroutine", "receiver is not retried in the loop",
-                      py.loc("async_client", gr.node))
-        else:
-            rep.missing(rule, "async_client._recv.get_response")
 
 
 # ----------------------------------------------------------------------------- C19
+def _waited(p, i, e, wait_name):
+    """The request event e (index i) of path p is preceded by a policer wait, or no policer is configured on the path."""
+    pol = [c for c in e.conds if re.match(r"^(self(\._session)?\._policer)$", c[0]) or re.match(r"^eq\(None,self(\._session)?\._policer\)$", c[0])]
+    if any((t.startswith("eq(") and v) or (not t.startswith("eq(") and not v) for t, v in pol):
+        return True, "no policer configured on this path"
+    w = [(j, x) for j, x in calls(p, lambda f: re.match(r"^self(\._session)?\._policer\.%s$" % wait_name, f) is not None) if j < i]
+    if not w:
+        return False, "no %s() before the request" % wait_name
+    if wait_name == "wait" and not all(x.awaited for j, x in w):
+        return False, "policer.wait() is not awaited"
+    return True, "policer waited"
+
+
 def policer_guard(ctx, rep, rule):
-    py = ctx.py
-    # sync: every sender waits first
-    table = (("sync_client", "SnmpSession.get", "get"), ("sync_client", "SnmpSession.get_many", "get_many"),
-             ("sync_getnext", "GetNextIter.__next__", "get_next"), ("sync_getbulk", "GetBulkIter.__next__", "get_bulk"))
-    for mod, fn, meth in table:
-        f = _need(ctx, rep, rule, "%s:%s" % (mod, fn))
-        if not f:
+    m = model(ctx)
+    table = (("sync_client", "SnmpSession", "get", "get"), ("sync_client", "SnmpSession", "get_many", "get_many"),
+             ("sync_getnext", "GetNextIter", "__next__", "get_next"), ("sync_getbulk", "GetBulkIter", "__next__", "get_bulk"))
+    for mod, cls, fn, meth in table:
+        ps = paths(ctx, rep, rule, mod, cls, fn)
+        if not ps:
             continue
-        sends = [x for g in f.all_funcs() for x in g.calls_to(lambda t: t == "self._sock." + meth)]
-        waits = [x for g in f.all_funcs() for x in g.calls_to(lambda t: t == "self._policer.wait_sync")]
-        if not sends:
-            rep.missing(rule, "%s.%s: self._sock.%s" % (mod, fn, meth))
-        for c, cx, st in sends:
-            ok = any(wcx.order < cx.order and wcx.has("self._policer", True) and
-                     all(a in cx.conds or a == ("self._policer", True) for a in wcx.conds) for w, wcx, wst in waits)
-            rep.check(rule, "%s.%s|wait-before-send" % (mod, fn), ok, "policer awaited before the request",
-                      "request self._sock.%s() is sent without waiting for the policer" % meth, py.loc(mod, c))
-    s = _need(ctx, rep, rule, "async_client:SnmpSession._send")
-    if s:
-        sends = s.calls_to(lambda t: t == "sender")
-        waits = s.calls_to(lambda t: t == "self._policer.wait")
-        first = min([cx.order for c, cx, st in sends], default=None)
-        ok = first is not None and any(cx.order < first and cx.has("self._policer", True) and isinstance(st, ast.Expr)
-                                       and isinstance(st.value, ast.Await) for c, cx, st in waits)
-        rep.check(rule, "async_client._send|wait-before-send", ok, "policer awaited before sender()",
-                  "sender() runs without awaiting the policer", py.loc("async_client", s.node))
-    # async: all socket send_* go through _send
-    n = 0
-    for key, f in sorted(py.funcs.items()):
-        if not key.startswith("async_client:"):
+        n = 0
+        bad = None
+        for p in ps:
+            for i, e in calls(p, "self._sock." + meth):
+                n += 1
+                ok, why = _waited(p, i, e, "wait_sync")
+                if not ok:
+                    bad = bad or (why, e)
+        if not n:
+            rep.missing(rule, "%s.%s.%s: self._sock.%s" % (mod, cls, fn, meth))
             continue
-        for g in f.all_funcs():
-            for c, cx, st in g.calls:
-                t = ast.unparse(c.func)
-                if t.startswith("self._sock.send_"):
-                    n += 1
-                    # must be inside a nested function handed to _send
-                    inside_sender = g.qualname.endswith(".sender")
-                    rep.check(rule, "async_client.%s|%s via _send" % (g.qualname, t.split(".")[-1]), inside_sender,
-                              "sent through _send", "%s is called outside a sender handed to _send (bypasses the policer)" % t,
-                              py.loc("async_client", c))
-    for key, f in sorted(py.funcs.items()):
-        if not key.startswith("async_client:"):
-            continue
-        for c, cx, st in f.calls:
-            if ast.unparse(c.func) in ("self._send", "self._session._send"):
-                a = [ast.unparse(x) for x in c.args]
-                rep.check(rule, "async_client.%s|_send(%s)" % (f.qualname, ",".join(a)), a in (["sender"], ["self._sock.send_refresh"]),
-                          "", "unexpected sender %s" % a, py.loc("async_client", c))
+        rep.check(rule, "%s.%s.%s|wait-before-send" % (mod, cls, fn), bad is None, "policer awaited before the request",
+                  "request self._sock.%s() is sent without waiting for the policer (%s)" % (meth, bad[0] if bad else ""),
+                  loc(ctx, mod, bad[1]) if bad else ctx.py.loc(mod, fn_node(ctx, mod, cls, fn)))
+    # async: every send_* reached from any method is preceded by an awaited policer wait
+    covered = set()
+    nsend = 0
+    for cls, meths in sorted(m.classes.get("async_client", {}).items()):
+        for meth in sorted(meths):
+            ps = m.paths("async_client", cls, meth)
+            bad = None
+            k = 0
+            for p in ps or []:
+                for i, e in calls(p, lambda f: re.search(r"\._sock\.send_\w+$", f) is not None):
+                    k += 1
+                    covered.add((getattr(e.node, "lineno", 0), getattr(e.node, "col_offset", 0)))
+                    ok, why = _waited(p, i, e, "wait")
+                    if not ok:
+                        bad = bad or (why, e)
+            if k:
+                nsend += 1
+                rep.check(rule, "async_client.%s.%s|wait-before-send" % (cls, meth), bad is None, "policer awaited before every send_*",
+                          "a request is sent without awaiting the policer (%s)" % (bad[0] if bad else ""),
+                          loc(ctx, "async_client", bad[1]) if bad else ctx.py.loc("async_client", meths[meth]))
+    if nsend < 5:
+        rep.missing(rule, "async_client: methods sending requests (found %d, expected get, get_many, refresh, 2 iterators)" % nsend)
+    # every syntactic send_* (call or bound-method reference) is one the paths above went through
+    tree = ctx.py.modules.get("async_client")
+    funcs_of_calls = {}
+    args_of_calls = {}
+    for n in ast.walk(tree) if tree else []:
+        if isinstance(n, ast.Call):
+            funcs_of_calls[id(n.func)] = n
+            for a in list(n.args) + [k.value for k in n.keywords]:
+                args_of_calls[id(a)] = n
+    for n in ast.walk(tree) if tree else []:
+        if isinstance(n, ast.Attribute) and re.search(r"\._sock\.send_\w+$", ast.unparse(n)):
+            name = ast.unparse(n).split(".")[-1]
+            if id(n) in funcs_of_calls:
+                c = funcs_of_calls[id(n)]
+                hit = (c.lineno, c.col_offset) in covered
+            elif id(n) in args_of_calls:
+                hit = ast.unparse(args_of_calls[id(n)].func).endswith("._send")
+            else:
+                hit = False
+            rep.check(rule, "async_client|%s reached through a policed path" % name, hit, "",
+                      "%s is used outside the analysed send paths (bypasses the policer)" % ast.unparse(n), ctx.py.loc("async_client", n))
     # sessions build the policer
     for mod in CLIENTS:
-        init = _need(ctx, rep, rule, "%s:SnmpSession.__init__" % mod)
-        if not init:
+        ps = paths(ctx, rep, rule, mod, "SnmpSession", "__init__")
+        if not ps:
             continue
-        asg = [(st, cx) for st, cx in init.assigns_to("self._policer") if ast.unparse(st.value) != "None"]
-        vals = {ast.unparse(st.value): cx for st, cx in asg}
-        rep.check(rule, mod + ".__init__|explicit-policer-first", "policer" in vals and vals["policer"].has("policer", True),
-                  "explicit policer wins", "policer argument handling is %s" % list(vals), py.loc(mod, init.node))
-        k = "RPSPolicer(float(limit_rps))"
-        rep.check(rule, mod + ".__init__|limit_rps", k in vals and vals[k].has("limit_rps", True) and vals[k].has("policer", False),
-                  "RPSPolicer(float(limit_rps)) when only limit_rps is given", "limit_rps handling is %s" % list(vals),
-                  py.loc(mod, init.node))
+        seen = set()
+        node = fn_node(ctx, mod, "SnmpSession", "__init__")
+        for p in ps:
+            if p.done == "raise":
+                continue
+            st = stores(p, "self._policer")
+            v = st[-1][1].value if st else None
+            given = ("policer", True) in p.conds or ("eq(None,policer)", False) in p.conds
+            absent = ("policer", False) in p.conds or ("eq(None,policer)", True) in p.conds
+            rps = ("limit_rps", True) in p.conds or ("eq(None,limit_rps)", False) in p.conds
+            norps = ("limit_rps", False) in p.conds or ("eq(None,limit_rps)", True) in p.conds
+            k = (given, absent, rps, norps, v)
+            if k in seen:
+                continue
+            seen.add(k)
+            if given:
+                rep.check(rule, mod + ".__init__|explicit-policer-first", v == "policer", "explicit policer wins", "a policer is given but self._policer = %s" % v,
+                          ctx.py.loc(mod, node))
+            elif absent and rps:
+                rep.check(rule, mod + ".__init__|limit_rps", v in ("RPSPolicer(float(limit_rps))", "RPSPolicer(limit_rps)", "RPSPolicer(rps=float(limit_rps))"),
+                          "RPSPolicer(float(limit_rps)) when only limit_rps is given", "limit_rps is given but self._policer = %s" % v, ctx.py.loc(mod, node))
+            elif absent and norps:
+                rep.check(rule, mod + ".__init__|no-policer", v in (None, "None"), "no policer by default", "self._policer = %s without policer / limit_rps" % v,
+                          ctx.py.loc(mod, node))
+        if not any(k[0] for k in seen) or not any(k[1] and k[2] for k in seen):
+            rep.missing(rule, mod + ".__init__: policer / limit_rps cases")
     nctor = 0
-    for key, f in sorted(py.funcs.items()):
-        if not key.startswith("sync_client:"):
-            continue
-        for g in f.all_funcs():
-            for c, cx, st in g.calls:
-                ctor = ast.unparse(c.func)
-                if ctor in ("GetNextIter", "GetBulkIter"):
-                    nctor += 1
-                    a = [ast.unparse(x) for x in c.args] + ["%s=%s" % (k.arg, ast.unparse(k.value)) for k in c.keywords]
-                    rep.check(rule, "sync_client.%s|%s policer passed" % (g.qualname, ctor), bool(a) and a[-1] in ("self._policer", "policer=self._policer"),
-                              "iterator shares the session policer", "%s built from %s: the walk is not rate limited" % (ctor, a), py.loc("sync_client", c))
+    for meth in sorted(m.classes.get("sync_client", {}).get("SnmpSession", {})):
+        ps = m.paths("sync_client", "SnmpSession", meth)
+        seen = set()
+        for p in ps or []:
+            for i, e in calls(p, lambda f: f in ("GetNextIter", "GetBulkIter")):
+                if (e.func, tuple(e.args)) in seen:
+                    continue
+                seen.add((e.func, tuple(e.args)))
+                nctor += 1
+                rep.check(rule, "sync_client.SnmpSession.%s|%s policer passed" % (meth, e.func), bool(e.args) and e.args[-1] in ("self._policer", "policer=self._policer"),
+                          "iterator shares the session policer", "%s built from %s: the walk is not rate limited" % (e.func, e.args), loc(ctx, "sync_client", e))
     if nctor < 2:
         rep.missing(rule, "sync_client: GetNextIter / GetBulkIter constructions")
+    # the sync iterators keep the policer they are given
+    for mod, cls in (("sync_getnext", "GetNextIter"), ("sync_getbulk", "GetBulkIter")):
+        ps = paths(ctx, rep, rule, mod, cls, "__init__")
+        for p in (ps or [])[:1]:
+            st = stores(p, "self._policer")
+            rep.check(rule, "%s.%s.__init__|keeps policer" % (mod, cls), bool(st) and st[-1][1].value == "policer", "self._policer = policer",
+                      "the iterator stores %s as its policer" % ([e.value for i, e in st]), ctx.py.loc(mod, fn_node(ctx, mod, cls, "__init__")))
 
 
 def policer_core(ctx, rep, rule):
     py = ctx.py
-    c = _need(ctx, rep, rule, "policer:RPSPolicer.__init__")
-    if c:
-        raises = c.raises()
-        zero = [r for r, cx in raises if cx.has("rps <= ZERO", True) or cx.has("rps <= 0", True) or cx.has("rps <= 0.0", True)]
-        rep.check(rule, "RPSPolicer.__init__|non-positive", bool(zero) and all("ValueError" in ast.unparse(r.exc) for r in zero),
-                  "rps <= 0 raises ValueError", "no ValueError for rps <= 0", py.loc("policer", c.node))
+    m = model(ctx)
+    ps = paths(ctx, rep, rule, "policer", "RPSPolicer", "__init__")
+    if ps:
+        node = fn_node(ctx, "policer", "RPSPolicer", "__init__")
         zconst = py.module_consts("policer").get("ZERO")
         rep.check(rule, "policer|ZERO", zconst == 0.0, "ZERO = 0.0", "ZERO is %r" % (zconst,), py.sources["policer"])
-        d = [ast.unparse(st.value) for st, cx in c.assigns_to("self._delta")]
-        rep.check(rule, "RPSPolicer.__init__|delta", d == ["int(NS / rps)"], "interval = int(NS / rps)", "self._delta = %s" % d,
-                  py.loc("policer", c.node))
-        high = [r for r, cx in raises if cx.has("self._delta", False) or cx.has("eq(0,self._delta)", True)]
-        rep.check(rule, "RPSPolicer.__init__|too-high", bool(high) and all("ValueError" in ast.unparse(r.exc) for r in high),
-                  "zero interval raises ValueError", "an interval of 0 ns (unrepresentably high rate) is accepted",
-                  py.loc("policer", c.node))
-        p = [ast.unparse(st.value) for st, cx in c.assigns_to("self._prev")]
-        rep.check(rule, "RPSPolicer.__init__|prev", p == ["None"], "no previous slot", "self._prev = %s" % p, py.loc("policer", c.node))
-    for fn, sl in (("wait", "asyncio.sleep"), ("wait_sync", "sleep")):
-        f = _need(ctx, rep, rule, "policer:BasePolicer." + fn)
-        if not f:
-            continue
-        d = [ast.unparse(st.value) for st, cx in f.assigns_to("delta")]
-        rep.check(rule, "BasePolicer.%s|delta-source" % fn, d == ["self.get_timeout(perf_counter_ns())"],
-                  "delta from get_timeout(perf_counter_ns())", "delta = %s" % d, py.loc("policer", f.node))
-        sl_calls = f.calls_to(lambda t: t == sl)
-        if not sl_calls:
-            rep.missing(rule, "BasePolicer.%s: %s" % (fn, sl))
-        for cc, cx, st in sl_calls:
-            a = [ast.unparse(x) for x in cc.args]
-            rep.check(rule, "BasePolicer.%s|sleep-amount" % fn, a in (["float(delta) / NS"], ["delta / NS"]),
-                      "sleeps delta/NS seconds", "sleeps %s instead of the computed delay" % a, py.loc("policer", cc))
-            rep.check(rule, "BasePolicer.%s|sleep-when-positive" % fn, cx.has("delta", True) and cx.has("delta > 0", True),
-                      "only for a positive delay", "sleep condition is %s" % (cx.conds,), py.loc("policer", cc))
-            if fn == "wait":
-                rep.check(rule, "BasePolicer.wait|awaited", isinstance(st, ast.Expr) and isinstance(st.value, ast.Await),
-                          "sleep is awaited", "asyncio.sleep is not awaited", py.loc("policer", cc))
-    g = _need(ctx, rep, rule, "policer:RPSPolicer.get_timeout")
-    if g:
-        # writers of _prev
-        for key, f in sorted(py.funcs.items()):
-            if not key.startswith("policer:"):
+        nonpos = [p for p in ps if any(c in p.conds for c in (("ZERO < rps", False), ("0 < rps", False), ("0.0 < rps", False)))]
+        other = [p for p in ps if p.done == "raise" and p not in nonpos and any("rps" in c[0] and "NS" not in c[0] for c in p.conds[:1])]
+        if nonpos:
+            rep.check(rule, "RPSPolicer.__init__|non-positive", all(p.done == "raise" and p.raised == "ValueError" for p in nonpos), "rps <= 0 raises ValueError",
+                      "rps <= 0 does not raise ValueError", py.loc("policer", node))
+        elif other:
+            rep.inconclusive(rule, "RPSPolicer.__init__|non-positive", "rps is validated by an unrecognised test: %s" % (other[0].conds,), py.loc("policer", node))
+        else:
+            rep.violation(rule, "RPSPolicer.__init__|non-positive", "no ValueError for rps <= 0", py.loc("policer", node))
+        good = ("int(NS / rps)", "int(NS // rps)")
+        nd = 0
+        seen = set()
+        for p in ps:
+            if p.done == "raise":
                 continue
-            for st, cx in f.stmts:
-                tg = []
-                if isinstance(st, ast.Assign):
-                    tg = [ast.unparse(t) for t in st.targets]
-                elif isinstance(st, (ast.AugAssign, ast.AnnAssign)):
-                    tg = [ast.unparse(st.target)]
-                if "self._prev" in tg:
-                    rep.check(rule, "policer|_prev written in %s" % f.qualname, f.qualname in ("RPSPolicer.get_timeout", "RPSPolicer.__init__"),
-                              "", "self._prev written outside get_timeout", py.loc("policer", st))
-        # decision table of get_timeout: (path condition) -> (state update, return)
+            d = [e.value for i, e in stores(p, "self._delta")]
+            pv = [e.value for i, e in stores(p, "self._prev")]
+            if (tuple(d), tuple(pv)) in seen:
+                continue
+            seen.add((tuple(d), tuple(pv)))
+            nd += 1
+            if d and d[-1] in good:
+                rep.ok(rule, "RPSPolicer.__init__|delta", "interval = int(NS / rps)", py.loc("policer", node))
+            elif not d:
+                rep.violation(rule, "RPSPolicer.__init__|delta", "self._delta is not set", py.loc("policer", node))
+            elif re.match(r"^int\((NS|1000000000(\.0)?|1e9) //? \(?rps\)?\)$", d[-1]):
+                rep.ok(rule, "RPSPolicer.__init__|delta", d[-1], py.loc("policer", node))
+            elif re.search(r"rps\s*[/*]|NS\s*\*|^rps$|^NS$", d[-1]) or ("rps" not in d[-1]):
+                rep.violation(rule, "RPSPolicer.__init__|delta", "self._delta = %s (the interval is NS / rps nanoseconds)" % d[-1], py.loc("policer", node))
+            else:
+                rep.inconclusive(rule, "RPSPolicer.__init__|delta", "self._delta = %s: equivalence with int(NS / rps) is not decided" % d[-1], py.loc("policer", node))
+            rep.check(rule, "RPSPolicer.__init__|prev", pv[-1:] == ["None"], "no previous slot", "self._prev = %s" % pv, py.loc("policer", node))
+        if not nd:
+            rep.missing(rule, "RPSPolicer.__init__: a non-raising path")
+        zero = [p for p in ps if any(c in p.conds for g in good for c in ((g, False),))]
+        rep.check(rule, "RPSPolicer.__init__|too-high", bool(zero) and all(p.done == "raise" and p.raised == "ValueError" for p in zero),
+                  "zero interval raises ValueError", "an interval of 0 ns (unrepresentably high rate) is accepted", py.loc("policer", node))
+    D = "self.get_timeout(perf_counter_ns())"
+    for fn, sl in (("wait", "asyncio.sleep"), ("wait_sync", "sleep")):
+        ps = paths(ctx, rep, rule, "policer", "BasePolicer", fn)
+        if not ps:
+            continue
+        node = fn_node(ctx, "policer", "BasePolicer", fn)
+        nsl = 0
+        seen = set()
+        for p in ps:
+            gt = calls(p, "self.get_timeout")
+            sls = calls(p, lambda f: f in (sl, "time.sleep" if sl == "sleep" else "sleep@"))
+            k = (tuple(tuple(e.args) for i, e in gt), tuple((tuple(e.args), e.conds) for i, e in sls), tuple(sorted(set(p.conds))))
+            if k in seen:
+                continue
+            seen.add(k)
+            rep.check(rule, "BasePolicer.%s|delta-source" % fn, len(gt) == 1 and gt[0][1].args == ["perf_counter_ns()"],
+                      "one get_timeout(perf_counter_ns()) per call", "get_timeout is called %d time(s) with %s: each call books a slot" %
+                      (len(gt), [e.args for i, e in gt]), py.loc("policer", node))
+            for i, e in sls:
+                nsl += 1
+                rep.check(rule, "BasePolicer.%s|sleep-amount" % fn, e.args in (["float(%s) / NS" % D], ["%s / NS" % D]),
+                          "sleeps delta/NS seconds", "sleeps %s instead of the computed delay" % e.args, loc(ctx, "policer", e))
+                pos = ("0 < " + D, True) in e.conds
+                nn = (D, True) in e.conds or ("eq(None,%s)" % D, False) in e.conds
+                rep.check(rule, "BasePolicer.%s|sleep-when-positive" % fn, pos and nn, "only for a positive delay", "sleep condition is %s" % (e.conds,),
+                          loc(ctx, "policer", e))
+                if fn == "wait":
+                    rep.check(rule, "BasePolicer.wait|awaited", e.awaited, "sleep is awaited", "asyncio.sleep is not awaited", loc(ctx, "policer", e))
+            if ("0 < " + D, True) in p.conds and p.done != "raise":
+                rep.check(rule, "BasePolicer.%s|sleeps" % fn, bool(sls), "a positive delay is slept", "a positive delay is computed but not slept",
+                          py.loc("policer", node))
+        if not nsl:
+            rep.missing(rule, "BasePolicer.%s: %s" % (fn, sl))
+    ps = paths(ctx, rep, rule, "policer", "RPSPolicer", "get_timeout")
+    if ps:
+        node = fn_node(ctx, "policer", "RPSPolicer", "get_timeout")
+        origins = set()
+        for p in ps:
+            for e in p.events:
+                origins |= set(e.origin or ())
+        # writers of _prev
+        tree = py.modules["policer"]
+        for c in [n for n in tree.body if isinstance(n, ast.ClassDef)]:
+            for f in [x for x in c.body if isinstance(x, (ast.FunctionDef, ast.AsyncFunctionDef))]:
+                for n in ast.walk(f):
+                    tg = []
+                    if isinstance(n, ast.Assign):
+                        tg = [ast.unparse(t) for t in n.targets]
+                    elif isinstance(n, (ast.AugAssign, ast.AnnAssign)):
+                        tg = [ast.unparse(n.target)]
+                    if "self._prev" in tg:
+                        okw = (c.name == "RPSPolicer" and f.name in ("get_timeout", "__init__")) or (f.name.startswith("_") and f.name in origins)
+                        rep.check(rule, "policer|_prev written in %s.%s" % (c.name, f.name), okw, "", "self._prev written outside get_timeout", py.loc("policer", n))
+        # decision table of get_timeout: (path condition at the slot update) -> (state update, return)
+        E = "ts - self._prev"
         rows = []
-        for r, cx in g.returns():
-            upd = [(ast.unparse(st) ) for st, c2 in g.stmts if isinstance(st, (ast.Assign, ast.AugAssign)) and c2.conds == cx.conds
-                   and "self._prev" in ast.unparse(st).split("=")[0]]
-            rows.append((tuple(sorted(cx.conds)), tuple(upd), ast.unparse(r.value) if r.value is not None else "None"))
-        el = [ast.unparse(st.value) for st, cx in g.assigns_to("elapsed")]
-        rep.check(rule, "RPSPolicer.get_timeout|elapsed", el == ["ts - self._prev"], "elapsed = ts - prev", "elapsed = %s" % el,
-                  py.loc("policer", g.node))
+        for p in ps:
+            st = stores(p, "self._prev")
+            rets = [e for e in p.events if e.kind == "return" and not e.origin]
+            conds = st[0][1].conds if st else (rets[-1].conds if rets else p.conds)
+            conds = tuple(sorted(set((strip_old(t), v) for t, v in conds)))
+            rows.append((conds, tuple(strip_old(e.value) for i, e in st), strip_old(pysym.text(p.ret)) if p.ret is not None else "None"))
+        NONE = ("eq(None,self._prev)", False)
         expect = {
-            "first": ((("eq(None,self._prev)", True),), ("self._prev = ts",), "None"),
-            "clock-back": ((("elapsed < 0", True), ("eq(None,self._prev)", False)), ("self._prev = ts",), "self._delta"),
-            "early": ((("elapsed < 0", False), ("elapsed < self._delta", True), ("eq(None,self._prev)", False)),
-                      ("self._prev += self._delta",), "self._delta - elapsed"),
-            "late": ((("elapsed < 0", False), ("elapsed < self._delta", False), ("eq(None,self._prev)", False)),
-                     ("self._prev += self._delta * (elapsed // self._delta)",), "None"),
+            "first": ((("eq(None,self._prev)", True),), ("ts",), "None"),
+            "clock-back": (((E + " < 0", True), NONE), ("ts",), "self._delta"),
+            "early": (((E + " < 0", False), (E + " < self._delta", True), NONE), ("self._prev + self._delta",), "self._delta - (%s)" % E),
+            "late": (((E + " < 0", False), (E + " < self._delta", False), NONE),
+                     ("self._prev + self._delta * ((%s) // self._delta)" % E,), "None"),
         }
-        got = {(tuple(sorted(c)), u, r) for c, u, r in rows}
+        got = set(rows)
         for name, (c, u, r) in expect.items():
             k = (tuple(sorted(c)), u, r)
-            loc = py.loc("policer", g.node)
+            where = py.loc("policer", node)
             if k in got:
-                rep.ok(rule, "RPSPolicer.get_timeout|row:" + name, "%s -> %s ; return %s" % (list(c), list(u), r), loc)
+                rep.ok(rule, "RPSPolicer.get_timeout|row:" + name, "%s -> %s ; return %s" % (list(c), list(u), r), where)
                 continue
             same = [x for x in got if x[0] == tuple(sorted(c))]
             if not same:
-                rep.inconclusive(rule, "RPSPolicer.get_timeout|row:" + name,
-                                 "path condition %s not found (function restructured)" % (list(c),), loc)
+                rep.inconclusive(rule, "RPSPolicer.get_timeout|row:" + name, "path condition %s not found (function restructured)" % (list(c),), where)
                 continue
             gu, gr = same[0][1], same[0][2]
             # Only differences whose effect is visible without arithmetic are violations; any other
             # rewriting of the slot arithmetic is outside what this family decides (inconclusive).
             if not gu:
-                rep.violation(rule, "RPSPolicer.get_timeout|row:" + name,
-                              "under %s the previous slot self._prev is not updated: later calls are measured against a "
-                              "stale slot" % (list(c),), loc)
+                rep.violation(rule, "RPSPolicer.get_timeout|row:" + name, "under %s the previous slot self._prev is not updated: later calls are measured against a "
+                              "stale slot" % (list(c),), where)
             elif name in ("early", "clock-back") and gr in ("None", "0", "0.0", "ZERO", "False"):
-                rep.violation(rule, "RPSPolicer.get_timeout|row:" + name,
-                              "an early request is released at once (returns %s instead of a positive delay)" % gr, loc)
+                rep.violation(rule, "RPSPolicer.get_timeout|row:" + name, "an early request is released at once (returns %s instead of a positive delay)" % gr, where)
             else:
-                rep.inconclusive(rule, "RPSPolicer.get_timeout|row:" + name,
-                                 "slot arithmetic differs from the reference (%s ; return %s): numerical equivalence is "
-                                 "not decided statically" % (list(gu), gr), loc)
+                rep.inconclusive(rule, "RPSPolicer.get_timeout|row:" + name, "slot arithmetic differs from the reference (%s ; return %s): numerical equivalence is "
+                                 "not decided statically" % (list(gu), gr), where)
